@@ -107,6 +107,13 @@ class _LazyScores(dict):
 SCORES = _LazyScores()
 
 
+def build_graph(builder, instance):
+    from job_shop_lib import graphs as G
+    return {"disjunctive": G.build_disjunctive_graph, "agent_task": G.build_agent_task_graph,
+            "agent_task_with_jobs": G.build_agent_task_graph_with_jobs,
+            "complete_agent_task": G.build_complete_agent_task_graph}[builder](instance)
+
+
 def _outcome(fn):
     try:
         return "ok", fn()
@@ -286,12 +293,74 @@ class DSession:
         self._ev({"a": "CreateObs", "t": t, "fts": actual, "out": out})
         return out
 
+    def create_graph_updater(self, builder, rm_machines=True, rm_jobs=True):
+        from job_shop_lib.graphs.graph_updaters import ResidualGraphUpdater
+        d = self.dispatcher
+
+        def mk():
+            g = build_graph(builder, self.instance)
+            u = ResidualGraphUpdater(d, g, remove_completed_machine_nodes=rm_machines,
+                                     remove_completed_job_nodes=rm_jobs)
+            u._verif_builder = builder      # attribute of the harness' own, for the projection
+            return u
+
+        out, obj = _outcome(mk)
+        if out == "ok":
+            self.extra.append(obj)
+        self._ev({"a": "CreateObs", "t": "ResidualGraphUpdater", "fts": [], "out": out, "builder": builder,
+                  "rm_machines": bool(rm_machines), "rm_jobs": bool(rm_jobs)})
+        return out
+
+    def graph_event(self, builder):
+        out, g = _outcome(lambda: build_graph(builder, self.instance))
+        self._ev({"a": "Graph", "builder": builder, "out": out,
+                  "nodes": obsproj.project_graph_nodes(g) if out == "ok" else [],
+                  "edges": obsproj.project_graph_edges(g) if out == "ok" else []})
+
+    def solved_event(self, source="dispatcher"):
+        """Solved disjunctive graph of a complete schedule (the dispatcher's, or one
+        found by CP-SAT, which need not be semi-active); acyclicity and the longest
+        duration-weighted path as the graph library computes them."""
+        import networkx as nx
+        from job_shop_lib.graphs import build_solved_disjunctive_graph
+        box = {}
+
+        def go():
+            if source == "cpsat":
+                from job_shop_lib.constraint_programming import ORToolsSolver
+                box["s"] = ORToolsSolver().solve(self.instance)
+            else:
+                box["s"] = self.dispatcher.schedule
+            g = build_solved_disjunctive_graph(box["s"])
+            G = g.graph
+            dag = nx.is_directed_acyclic_graph(G)
+            longest = -1
+            if dag:
+                w = {n.node_id: (n.operation.duration if n.node_type.name == "OPERATION" else 0) for n in g.nodes}
+                H = nx.DiGraph()
+                H.add_nodes_from(G.nodes())
+                for u, v in G.edges():
+                    H.add_edge(u, v, weight=w[u])
+                longest = nx.dag_longest_path_length(H, weight="weight")
+            return g, dag, longest
+
+        out, r = _outcome(go)
+        self._ev({"a": "Solved", "out": out, "source": source,
+                  "sched": model.project_schedule(box["s"]) if "s" in box else [],
+                  "nodes": obsproj.project_graph_nodes(r[0]) if out == "ok" else [],
+                  "edges": obsproj.project_graph_edges(r[0]) if out == "ok" else [],
+                  "is_dag": bool(r[1]) if out == "ok" else False,
+                  "longest": int(r[2]) if out == "ok" else -1})
+
     def fresh_run(self, creations, actions):
         """Same observers created in the same order on a FRESH dispatcher, the
         same calls made: its projection is logged next to the current one."""
         other = DSession(self.tid, self.inst, self.filt, ())
         for (t, fts) in creations:
-            other.create_builtin(t, fts)
+            if t == "ResidualGraphUpdater":
+                other.create_graph_updater(*fts)
+            else:
+                other.create_builtin(t, fts)
         for a in actions:
             if a["a"] == "D":
                 other.dispatch(a["j"], a["p"], a["m"], none=bool(a.get("none", False)))
@@ -436,10 +505,18 @@ def rerun_trace(tid, trace) -> dict:
             s.create_or_get(ev["cls"])
         elif a == "Replay":
             s.replay(ev["mode"])
+        elif a == "CreateObs" and ev["t"] == "ResidualGraphUpdater":
+            s.create_graph_updater(ev["builder"], ev["rm_machines"], ev["rm_jobs"])
         elif a == "CreateObs":
             s.create_builtin(ev["t"], ev["fts"])
+        elif a == "Graph":
+            s.graph_event(ev["builder"])
+        elif a == "Solved":
+            s.solved_event(ev.get("source", "dispatcher"))
         elif a == "FreshRun":
-            creations = [(e["t"], e["fts"]) for e in trace["events"] if e["a"] == "CreateObs"]
+            creations = [(e["t"], (e["builder"], e["rm_machines"], e["rm_jobs"])
+                          if e["t"] == "ResidualGraphUpdater" else e["fts"])
+                         for e in trace["events"] if e["a"] == "CreateObs" and e["out"] == "ok"]
             acts, cur = [], []
             for e in trace["events"]:
                 if e is ev:
